@@ -1,5 +1,5 @@
 """C07 Branches compose: alternation is union, repetition is iteration, `any` is union."""
-import random
+import random, re
 import common, gen
 from common import hexs, unhex
 from props import lib
@@ -142,6 +142,11 @@ def run(rep, tier, seed, replay):
             fr.append(fany[j])
             corr = corr and lib.parse_model_build(many[j]).get("pattern") == lib.parse_impl_build(anyres[j]).get("pattern")
         tags = sorted({t for f in fr if f != "in" for t in f[4:].split(",")})
+        if law == "rep" and whole is not None and re.search(r":0,\d*>", whole) and "**" in whole and corr and "K-REP-ZERO-CONTEXT" in finding_ids:
+            # a tree wildcard next to a repetition that may iterate zero times keeps the form for "something follows",
+            # while the glob with the body written out zero times ends in the tree wildcard (rep_unroll needs lo >= 1)
+            rep.known_hits["K-REP-ZERO-CONTEXT"] += 1
+            continue
         if all(f == "in" for f in fr):
             rep.violation("oracle", "%s: every member is in F01 (the law transfers to the compiled programs) but the whole and the union of the parts differ" % law, inp, whole_matches=got_whole, parts_match=got_parts)
         elif not corr:
